@@ -830,7 +830,7 @@ package quic
 //@   implies(typeis(tp, tls.MaxDatagramFrameSize) && dyn(tp, tls.MaxDatagramFrameSize) > 0, c.EnableDatagrams)
 
 //@ func (s *QUICSpec) configEnforcingAdvertisedLimits
-//@   props C12
+//@   props C12 C04
 //@   requires conf != nil
 //@   let exts = s.ClientHelloSpec.Extensions
 //@   ensures [no-spec] implies(s.ClientHelloSpec == nil, result == conf)
@@ -1394,7 +1394,6 @@ package quic
 //@   modifies *firstByte, pnBytes[:len(pnBytes)]
 //@ func (u *packetUnpacker) unpackShortHeader
 //@   props C05
-//@   arith bv
 //@   requires 0 <= u.shortHdrConnIDLen && u.shortHdrConnIDLen <= 20 && len(data) <= 1099511627776 && hd != nil
 //@   let hl = 1 + u.shortHdrConnIDLen
 //@   ensures [too-short-for-a-sample] implies(len(data) < hl + 20, result4 != nil && called("(quic.headerDecryptor).DecryptHeader") == 0)
@@ -1405,7 +1404,6 @@ package quic
 //@   modifies data[:]
 //@ func unpackLongHeader
 //@   props C05
-//@   arith bv
 //@   requires hdr != nil && 0 <= hdr.parsedLen && hdr.parsedLen <= 1048576 && len(data) <= 1099511627776 && hd != nil
 //@   let hl = int(hdr.parsedLen)
 //@   ensures [too-short-for-a-sample] implies(len(data) < hl + 20, result1 != nil && result0 == nil && called("(quic.headerDecryptor).DecryptHeader") == 0)
